@@ -243,12 +243,12 @@ def r19_4(ctx):
     # is_strictly_increasing: evaluated on small concrete sequences
     isi = model.func(MISC, "is_strictly_increasing")
     rep.analysed(isi)
-    it = Interp(model)
+    it = Interp(model, ContractHooks())
     F = Fraction
     table = {(1, 2, 3): True, (1, 1, 2): False, (2, 1, 3): False, (1, 3, 2): False, (1, 2, 2): False, (5,): True}
     bad = []
     for seq, want in table.items():
-        got = it.call_function(isi, [[F(x) for x in seq]], {})
+        got = it.call_function(isi, [TSeq([F(x) for x in seq])], {})      # check_contract always hands it a tensor
         if bool(got) != want:
             bad.append((seq, bool(got)))
     rep.check(not bad, "R19.4", astq.loc(isi), f"{isi.key}::R19.4::strict",
@@ -500,12 +500,63 @@ class TObj(Obj):
 
 
 class TSeq(TObj):
-    """A 1-D tensor of times: shape-only, but indexable / sliceable like the list of its values."""
+    """A 1-D tensor with concrete (exact rational or boolean) entries: indexable, sliceable and iterable like the list
+    of its values, and with the element-wise semantics of the vectorised idioms (comparison, difference, any / all)."""
 
     def __init__(self, values, requires_grad=False):
         super().__init__((len(values),), "ts-tensor", requires_grad)
-        vals = [Fraction(v) for v in values]
-        self.getitem_hook = lambda it, obj, idx, node, fi: vals[idx]
+        vals = [v if isinstance(v, bool) else Fraction(v) for v in values]
+        self.vals = vals
+
+        def getitem(it, obj, idx, node, fi):
+            r = vals[idx]
+            return TSeq(r, requires_grad) if isinstance(idx, slice) else r
+        self.getitem_hook = getitem
+        self.attrs.update({
+            "any": Intrinsic("any", lambda it, a, k, n, f: any(bool(v) for v in vals)),
+            "all": Intrinsic("all", lambda it, a, k, n, f: all(bool(v) for v in vals)),
+            "tolist": Intrinsic("tolist", lambda it, a, k, n, f: list(vals)),
+            "diff": Intrinsic("diff", lambda it, a, k, n, f: TSeq([b - a_ for a_, b in zip(vals[:-1], vals[1:])])),
+        })
+
+    def sim_iter(self):
+        return list(self.vals)
+
+    def _zip(self, other):
+        if isinstance(other, TSeq):
+            if len(other.vals) != len(self.vals):
+                raise AnalysisError("element-wise operation on 1-D tensors of different lengths")
+            return list(zip(self.vals, other.vals))
+        if isinstance(other, (Fraction, int, float)) and not isinstance(other, bool):
+            return [(v, Fraction(other)) for v in self.vals]
+        return None
+
+    def sim_compare(self, op, l, r):
+        flip = not isinstance(l, TSeq)
+        pairs = (r if flip else l)._zip(l if flip else r)
+        if pairs is None:
+            return NotImplemented
+        if flip:
+            pairs = [(b, a) for a, b in pairs]
+        table = {ast.Lt: lambda a, b: a < b, ast.LtE: lambda a, b: a <= b, ast.Gt: lambda a, b: a > b,
+                 ast.GtE: lambda a, b: a >= b, ast.Eq: lambda a, b: a == b, ast.NotEq: lambda a, b: a != b}
+        fn = table.get(type(op))
+        if fn is None:
+            return NotImplemented
+        return TSeq([fn(a, b) for a, b in pairs])
+
+    def sim_binop(self, op, l, r):
+        flip = not isinstance(l, TSeq)
+        pairs = (r if flip else l)._zip(l if flip else r)
+        if pairs is None:
+            return NotImplemented
+        if flip:
+            pairs = [(b, a) for a, b in pairs]
+        if isinstance(op, ast.Sub):
+            return TSeq([a - b for a, b in pairs])
+        if isinstance(op, ast.Add):
+            return TSeq([a + b for a, b in pairs])
+        return NotImplemented
 
 
 def _size(sh, a, node, fi):
@@ -533,7 +584,14 @@ class ContractHooks(solvers.QuietHooks):
         if dotted == "torch.randn":
             return TObj([a for a in args if isinstance(a, Fraction)], "randn")
         if dotted == "torch.tensor":
-            return args[0]
+            v = args[0]
+            if isinstance(v, (list, tuple)) and all(isinstance(x, (Fraction, int)) and not isinstance(x, bool) for x in v):
+                return TSeq(list(v))
+            return v
+        if dotted in ("torch.all", "torch.any") and len(args) == 1 and isinstance(args[0], TSeq):
+            return (all if dotted.endswith("all") else any)(bool(x) for x in args[0].vals)
+        if dotted == "torch.diff" and args and isinstance(args[0], TSeq):
+            return TSeq([b - a for a, b in zip(args[0].vals[:-1], args[0].vals[1:])])
         if dotted == "warnings.warn":
             return None
         return solvers.QuietHooks.external_call(self, interp, dotted, args, kwargs, node, fi)
